@@ -15,12 +15,15 @@ import (
 	"flag"
 	"fmt"
 	"io/ioutil"
+	"net/http/httptest"
+	"net/url"
 	"os"
 	"path/filepath"
 	"sort"
 	"strings"
 
 	"github.com/ghodss/yaml"
+	admin "mosn.io/mosn/pkg/admin/server"
 	"mosn.io/mosn/pkg/configmanager"
 	_ "mosn.io/mosn/pkg/filter/listener/originaldst"
 	_ "mosn.io/mosn/pkg/filter/network/connectionmanager"
@@ -62,6 +65,7 @@ var (
 type abstractCase struct {
 	T      string            `json:"t"`
 	Assign map[string]string `json:"a"`
+	Admin  bool              `json:"admin"`
 }
 
 // simple append-only NDJSON writer (vh.Trace truncates)
@@ -118,6 +122,50 @@ func main() {
 // reloadExtra, when set, adds observations of the second life to the reload event.
 var reloadExtra func() map[string]interface{}
 
+// adminBetween: query every admin config-dump endpoint while the first life runs (a read-only step of the life).
+var adminBetween bool
+
+// adminQueries lists the config_dump requests for the objects of the running configuration.
+func adminQueries() []string {
+	qs := []string{"", "?mosnconfig", "?allrouters", "?allclusters", "?alllisteners"}
+	snap := configmanager.VerifSnapshot()
+	add := func(param string, names []string) {
+		sort.Strings(names)
+		for i, n := range names {
+			if i < 3 {
+				qs = append(qs, "?"+param+"="+url.QueryEscape(n))
+			}
+		}
+	}
+	var ls, cs, rs []string
+	for n := range snap.Listener {
+		ls = append(ls, n)
+	}
+	for n := range snap.Cluster {
+		cs = append(cs, n)
+	}
+	for n := range snap.Routers {
+		rs = append(rs, n)
+	}
+	add("listener", ls)
+	add("cluster", cs)
+	add("router", rs)
+	return qs
+}
+
+// adminDumps performs the requests and reports where the effective configuration differs afterwards.
+func adminDumps(tr *tracer) {
+	before := liveFacts()
+	qs := adminQueries()
+	for _, q := range qs {
+		req := httptest.NewRequest("GET", "http://127.0.0.1/api/v1/config_dump"+q, nil)
+		admin.ConfigDump(httptest.NewRecorder(), req)
+	}
+	var d []string
+	diffTrees(before, liveFacts(), "", &d)
+	tr.Emit(vh.Ev{"ev": "admin", "endpoints": len(qs), "diff": strs(d)})
+}
+
 func cycle(tr *tracer, path string, obsFn func(doc interface{}) map[string]string) {
 	cycleLoadEv(tr, path, obsFn, false)
 }
@@ -130,6 +178,9 @@ func cycleLoadEv(tr *tracer, path string, obsFn func(doc interface{}) map[string
 	}
 	tr.Emit(vh.Ev{"ev": "load", "ok": true, "expect_refused": expectRefused})
 	e0 := effFacts()
+	if adminBetween {
+		adminDumps(tr)
+	}
 	inh, ierr := configmanager.InheritMosnconfig()
 	d1, err := l0.Persist()
 	l0.Stop()
@@ -269,7 +320,8 @@ func runRT() {
 		if asYAML {
 			format = "yaml"
 		}
-		tr.Emit(vh.Ev{"ev": "case", "id": i, "t": c.T, "a": c.Assign, "fmt": format})
+		tr.Emit(vh.Ev{"ev": "case", "id": i, "t": c.T, "a": c.Assign, "fmt": format, "admin": c.Admin})
+		adminBetween = c.Admin
 		input := canon(target).(map[string]interface{})
 		obsFn := func(doc interface{}) map[string]string {
 			out := map[string]string{}
@@ -302,6 +354,7 @@ func runRT() {
 			return out
 		}
 		cycle(tr, path, obsFn)
+		adminBetween = false
 		return nil
 	})
 	vh.Must(err, "rt cases")
@@ -374,8 +427,14 @@ func runSamples() {
 		disarmAgents(path)
 		wd, _ := os.Getwd()
 		os.Chdir(dir)
-		tr.Emit(vh.Ev{"ev": "case", "id": i, "t": "sample", "a": map[string]string{}, "fmt": strings.TrimPrefix(filepath.Ext(p), "."), "path": rel})
-		cycle(tr, path, nil)
+		orig, _ := ioutil.ReadFile(path)
+		for _, withAdmin := range []bool{false, true} {
+			ioutil.WriteFile(path, orig, 0644) // the first cycle rewrote the file
+			tr.Emit(vh.Ev{"ev": "case", "id": i, "t": "sample", "a": map[string]string{}, "fmt": strings.TrimPrefix(filepath.Ext(p), "."), "path": rel, "admin": withAdmin})
+			adminBetween = withAdmin
+			cycle(tr, path, nil)
+			adminBetween = false
+		}
 		os.Chdir(wd)
 	}
 	mark(-1)
